@@ -1,17 +1,18 @@
 (* InstHist.v — the history machine is instantiated at the parameters extracted from /repo's
    current source; its side condition is the conjunction of the owning areas' conditions. *)
 From BigNum Require Import Base BaseLemmas AddSub Div Bits Mul MulProofs MulProofs3 MulProofs5 RadixInst
-  Hist HistProofs Extracted InstAddSub InstDiv InstBits InstMul InstPgr InstRadix.
+  Hist HistProofs Extracted InstAddSub InstDiv InstBits InstMul InstPgr InstRadix InstIter InstSerde InstBytes InstSign.
 
 Definition hist_extracted : hist_params :=
   mkHP Extracted.addsub Extracted.div Extracted.bits Extracted.mul
-       Extracted.pgr_pow Extracted.pgr_gcd Extracted.pgr_roots Extracted.radix.
+       Extracted.pgr_pow Extracted.pgr_gcd Extracted.pgr_roots Extracted.radix
+       Extracted.iter Extracted.serde Extracted.byteio Extracted.signs.
 
 Lemma hist_params_ok : hist_ok hist_extracted = true.
 Proof.
-  unfold hist_ok, hist_extracted; cbn [hp_as hp_div hp_bits hp_mul hp_pow hp_gcd hp_roots hp_radix].
+  unfold hist_ok, hist_ok_core, hist_extracted; cbn [hp_as hp_div hp_bits hp_mul hp_pow hp_gcd hp_roots hp_radix hp_iter hp_serde hp_bytes hp_sign].
   rewrite addsub_params_ok, div_params_ok, bits_params_ok, mul_params_ok,
-    pow_params_ok, gcd_params_ok, roots_params_ok, radix_params_ok. reflexivity.
+    pow_params_ok, gcd_params_ok, roots_params_ok, radix_params_ok, iter_params_ok, serde_params_ok, bytes_params_ok, sign_params_ok. reflexivity.
 Qed.
 
 (** The two statements of property C02 that the multiplying operations (`*=`, pow, cbrt,
